@@ -110,6 +110,24 @@ func replayPath(r *vlib.R, w Wiring, c Case, conformed func(i int, changed bool)
 type modelCfg struct {
 	ticksPerMax, njobs int
 	replica            bool
+	owner2             []string // non-empty: two gateways sharded by hashmod(__block_id), these blocks hash to the second
+}
+
+func flowName(p Params) string {
+	flow := "plain"
+	if p.Repl {
+		flow = "replica-label"
+	}
+	if p.gateways() > 1 {
+		var first []string
+		for _, b := range modelBlocks(p.NJobs) {
+			if p.owner(b) == 1 {
+				first = append(first, b)
+			}
+		}
+		flow += fmt.Sprintf("/sharded(%s|%s)", strings.Join(first, ","), strings.Join(p.Owner2, ","))
+	}
+	return flow
 }
 
 func TestCheck(t *testing.T) {
@@ -121,7 +139,7 @@ func TestCheck(t *testing.T) {
 	if err != nil {
 		t.Fatalf("HARNESS-ERROR reading the wiring from %s: %v", repo, err)
 	}
-	r.Rule("TLC explores every reachable state of Compaction.tla for constants scaled from the flag defaults; every edge of the dumped state graph is replayed on the real code " +
+	r.Rule("TLC explores every reachable state of Compaction.tla for constants scaled from the flag defaults, the gateway filter chain in the order of cmd/thanos/store.go, one gateway and a two-gateway set sharded by hashmod(__block_id); every edge of the dumped state graph is replayed on the real code " +
 		"inside traces from the initial state (each step compared); per model configuration the real compactor runs one fault-free main-loop iteration per tick on real blocks isomorphic to the model's catalogue and its " +
 		"mutating bucket operations, abstracted into UploadData/UploadMeta/MarkSource/Clean, must be the projection of a path of the state graph (program order of the Compactor process); " +
 		"non-trivial = distinct graph edges replayed on the real code whose action changed the bucket, a mark age, the listing or the view, plus every real compactor action validated against the graph")
@@ -130,7 +148,8 @@ func TestCheck(t *testing.T) {
 			"the order of the compactor's steps (data, then meta.json, then the marks of the sources; Clean only of blocks marked for longer than the delete delay) is NOT assumed: it is checked on the real compactor's operation log of fault-free iterations (checks/c29/rig wiring of runCompact, drift-checked; downsampling is a no-op for the small blocks)",
 		"one tick = max(delete-delay, ignore-deletion-marks-delay)/N; delete-delay and ignore-deletion-marks-delay are exact in ticks (floor is exact for 'age > delay' on whole-tick ages), the sync period 15m is rounded UP to one tick",
 		"conformance is checked on traces of the model executed on the real components with a virtual clock, and on the real compactor's fault-free cycles (where retention, BestEffortCleanAbortedPartialUploads, garbage collection and the planner run and must not produce any operation the model does not have); compactor crashes and faulty iterations are not part of the model; installing a listing as the gateway's view is done by the harness (BucketStore.SyncBlocks is not driven)",
-		"the real components get the real flag durations; the gateway's filter chain is built in the order parsed from cmd/thanos/store.go; fetch concurrency 4 instead of 32",
+		"the real components get the real flag durations; every gateway's filter chain is built in the order parsed from cmd/thanos/store.go (the same order is the model's constant Chain); fetch concurrency 4 instead of 32",
+		"sharded gateway sets: two gateways with the relabel config 'hashmod __block_id % 2 -> keep own residue' (docs/sharding.md), block ids chosen so that the real hashmod assigns them as the model's Owner2 says, store --consistency-delay 30m (model: that filter keeps every block of the catalogue - results are compactor-made and exempt, sources are 1000h old); only assignments that separate a source from its replacement; quick tier (and the two-job set of the thorough tier): TLC explores the whole graph, the real code replays the edges reachable when no sync spans a tick boundary",
 	)
 	r.Set("wiring", fmt.Sprintf("%+v", w))
 
@@ -139,7 +158,7 @@ func TestCheck(t *testing.T) {
 		r.Eval(1)
 		if rc.Kind == "tlc" {
 			// the constants are derived again from the source tree being checked
-			p, err := scale(w, rc.P.N, rc.P.NJobs, rc.P.Repl)
+			p, err := scale(w, rc.P.N, rc.P.NJobs, rc.P.Repl, rc.P.Owner2)
 			if err != nil {
 				t.Fatalf("HARNESS-ERROR %v", err)
 			}
@@ -153,7 +172,7 @@ func TestCheck(t *testing.T) {
 			return
 		}
 		if rc.Kind == "order" {
-			p, err := scale(w, rc.P.N, rc.P.NJobs, rc.P.Repl)
+			p, err := scale(w, rc.P.N, rc.P.NJobs, rc.P.Repl, nil)
 			if err != nil {
 				t.Fatalf("HARNESS-ERROR %v", err)
 			}
@@ -171,7 +190,7 @@ func TestCheck(t *testing.T) {
 				t.Fatalf("HARNESS-ERROR parsing TLC's state graph: %v", err)
 			}
 			tmp := t.TempDir()
-			sets := startOrderSets(t, []modelCfg{{p.N, p.NJobs, p.Repl}}, tmp)
+			sets := startOrderSets(t, []modelCfg{{p.N, p.NJobs, p.Repl, nil}}, tmp)
 			checkProgramOrder(t, r, w, sets, p, g, tmp)
 			return
 		}
@@ -197,7 +216,15 @@ func TestCheck(t *testing.T) {
 		}
 	}()
 
-	cfgs := vlib.Pick(r, []modelCfg{{8, 1, false}, {8, 1, true}}, []modelCfg{{8, 1, false}, {8, 1, true}, {4, 2, false}, {4, 2, true}, {6, 2, false}, {6, 2, true}})
+	// gateway sets: one gateway (as before), and two gateways sharded by hashmod on __block_id with the two
+	// assignments of {s1, s2, r} that separate a source from its replacement (s1 and s2 are interchangeable in the
+	// plain flow; all blocks on one gateway is the unsharded model plus an idle gateway)
+	// (quick: s1 | s2,r - one gateway relies on the deletion mark only, the other one on the duplicate filter too)
+	shardR, shardS1 := []string{"r"}, []string{"s1"}
+	cfgs := vlib.Pick(r,
+		[]modelCfg{{8, 1, false, nil}, {8, 1, true, nil}, {4, 1, false, shardS1}},
+		[]modelCfg{{8, 1, false, nil}, {8, 1, true, nil}, {4, 1, false, shardS1}, {4, 1, false, shardR}, {4, 2, false, nil}, {4, 2, true, nil}, {6, 2, false, nil}, {6, 2, true, nil},
+			{8, 1, false, shardS1}, {8, 1, false, shardR}, {4, 2, false, []string{"s1", "t"}}})
 	// all TLC runs side by side: per configuration the flag-default constants (with state graph), the
 	// detection demo (smallest sync period beyond the bound: must violate an invariant) and, for the plain
 	// flow, L = D-I for the record.
@@ -218,7 +245,7 @@ func TestCheck(t *testing.T) {
 	defer oSets.wait()
 	var wg sync.WaitGroup
 	for i, mc := range cfgs {
-		p, err := scale(w, mc.ticksPerMax, mc.njobs, mc.replica)
+		p, err := scale(w, mc.ticksPerMax, mc.njobs, mc.replica, mc.owner2)
 		if err != nil {
 			t.Fatalf("HARNESS-ERROR scaling the flag defaults: %v", err)
 		}
@@ -226,9 +253,14 @@ func TestCheck(t *testing.T) {
 		runs[i] = tr
 		// Served / NoDangling need the staleness of the view, L+S, to stay within D when the duplicate filter
 		// hides replaced blocks (plain flow) and within D-I when only the deletion mark hides them (replica flow)
+		// and, in a sharded set, additionally within I (the gateway owning the replacement must list it before the
+		// gateway owning the marked source stops listing the source)
 		tr.bound = p.D
-		if p.Repl {
+		if p.Repl || p.gateways() > 1 {
 			tr.bound = p.D - p.I
+		}
+		if p.gateways() > 1 && p.I < tr.bound {
+			tr.bound = p.I
 		}
 		tr.demoP = p
 		tr.demoP.L = tr.bound - p.S + 1
@@ -237,7 +269,7 @@ func TestCheck(t *testing.T) {
 		}
 		tr.infoP = p
 		tr.infoP.L = p.D - p.I
-		tr.hasInfo = !p.Repl && tr.infoP.L >= 1 && tr.infoP.L != p.L && tr.infoP.L != tr.demoP.L
+		tr.hasInfo = r.Thorough() && !p.Repl && p.gateways() == 1 && tr.infoP.L >= 1 && tr.infoP.L != p.L && tr.infoP.L != tr.demoP.L
 		demoDir, infoDir := t.TempDir(), t.TempDir()
 		wg.Add(2)
 		go func() { defer wg.Done(); tr.main, tr.mainErr = runTLC(specPath, tr.mainDir, tr.p, true, 4) }()
@@ -251,12 +283,10 @@ func TestCheck(t *testing.T) {
 
 	for _, tr := range runs {
 		p := tr.p
-		flow := "plain"
-		if p.Repl {
-			flow = "replica-label"
-		}
-		r.Note("model %d job(s), %s flow: tick=%ds D=%d I=%d L=%d S=%d (delete-delay=%ds ignore-deletion-marks-delay=%ds sync-block-duration=%ds)", p.NJobs, flow, p.TickS, p.D, p.I, p.L, p.S, p.DeleteDelayS, p.IgnoreMarksDelayS, p.SyncIntervalS)
+		flow := flowName(p)
+		r.Note("model %d job(s), %s flow: tick=%ds D=%d I=%d L=%d S=%d (delete-delay=%ds ignore-deletion-marks-delay=%ds sync-block-duration=%ds store consistency-delay=%ds) gateways=%d chain=%v", p.NJobs, flow, p.TickS, p.D, p.I, p.L, p.S, p.DeleteDelayS, p.IgnoreMarksDelayS, p.SyncIntervalS, p.GwConsistencyS, p.gateways(), p.Chain)
 		mainRes, mainDir := tr.main, tr.mainDir
+		r.Note("TLC cost (%d job(s), %s flow): flag defaults %.0fs CPU / %.0fs wall, detection demo %.0fs CPU / %.0fs wall", p.NJobs, flow, tr.main.CPU, tr.main.Wall, tr.demo.CPU, tr.demo.Wall)
 		if tr.mainErr != nil {
 			t.Fatalf("HARNESS-ERROR TLC (flag defaults): %v", tr.mainErr)
 		}
@@ -276,6 +306,9 @@ func TestCheck(t *testing.T) {
 			if p.Repl {
 				rel = "L = D-I, i.e. L+S > D-I"
 			}
+			if p.gateways() > 1 {
+				rel = "L+S > min(I, D-I)"
+			}
 			r.Note("detection demo (%d job(s), %s flow): with L=%d (%s) TLC reports invariant %s violated after %d distinct states", p.NJobs, flow, tr.demoP.L, rel, tr.demo.Violated, tr.demo.Distinct)
 			r.Add("demo_runs_violating", 1)
 		}
@@ -293,17 +326,28 @@ func TestCheck(t *testing.T) {
 		if !reflect.DeepEqual(abstractModel(g.States[g.Init]), abstractModel(initialState(p))) {
 			t.Fatalf("HARNESS-ERROR initial state of the graph %v is not the harness' %v", g.States[g.Init], initialState(p))
 		}
-		// program order of the real compactor (order_test.go): before the edge replay, it is cheap
-		t0 := time.Now()
-		or := checkProgramOrder(t, r, w, oSets, p, g, orderTmp)
-		r.AddTraces(int64(or.actions))
-		r.Add("real_compactor_cycles", 1)
-		r.Add("real_compactor_actions_validated", int64(or.actions))
-		r.Add("real_compactor_bucket_ops_abstracted", int64(or.ops))
-		r.Note("program order (%d job(s), %s flow, N=%d): real compactor ran %d main-loop iterations (one per tick), %d mutating bucket operations abstracted into %d compactor actions, all steps of the model's Compactor process=%v, %.1fs: %s",
-			p.NJobs, flow, p.N, or.ticks+1, or.ops, or.actions, !or.violated, time.Since(t0).Seconds(), strings.Join(or.seq, " "))
+		// program order of the real compactor (order_test.go): before the edge replay, it is cheap. The Compactor
+		// process does not depend on the gateway set: it is bound once per flow and job list, on the one-gateway model.
+		if p.gateways() == 1 {
+			t0 := time.Now()
+			or := checkProgramOrder(t, r, w, oSets, p, g, orderTmp)
+			r.AddTraces(int64(or.actions))
+			r.Add("real_compactor_cycles", 1)
+			r.Add("real_compactor_actions_validated", int64(or.actions))
+			r.Add("real_compactor_bucket_ops_abstracted", int64(or.ops))
+			r.Note("program order (%d job(s), %s flow, N=%d): real compactor ran %d main-loop iterations (one per tick), %d mutating bucket operations abstracted into %d compactor actions, all steps of the model's Compactor process=%v, %.1fs: %s",
+				p.NJobs, flow, p.N, or.ticks+1, or.ops, or.actions, !or.violated, time.Since(t0).Seconds(), strings.Join(or.seq, " "))
+		}
 
-		paths := coverPaths(g, 200)
+		// sharded gateway sets in the quick tier (and the two-job one of the thorough tier): TLC has explored the complete
+		// graph; the real code replays every edge of the part in which no sync spans a tick boundary (syncs spanning a
+		// tick are replayed in the one-gateway flows and, in the thorough tier, in the one-job sharded sets)
+		fullEdges := len(g.Edges)
+		if p.gateways() > 1 && (!r.Thorough() || p.NJobs > 1) {
+			g = syncsWithinTick(g)
+			r.Note("edge replay (%d job(s), %s flow): restricted to the %d states / %d edges (of %d / %d) reachable when no sync spans a tick boundary", p.NJobs, flow, len(g.States), len(g.Edges), mainRes.Distinct, fullEdges)
+		}
+		paths := coverPaths(g, 400)
 		covered := make([]bool, len(g.Edges))
 		for _, pa := range paths {
 			for _, ei := range pa.Edges {
@@ -315,8 +359,17 @@ func TestCheck(t *testing.T) {
 				t.Fatalf("HARNESS-ERROR edge %d not covered by the generated traces", ei)
 			}
 		}
+		for _, pa := range paths {
+			cur := g.Init
+			for _, ei := range pa.Edges {
+				if g.Edges[ei].From != cur {
+					t.Fatalf("HARNESS-ERROR generated trace is not a path of the state graph")
+				}
+				cur = g.Edges[ei].To
+			}
+		}
 		r.AddStates(mainRes.Distinct)
-		r.AddTransitions(int64(len(g.Edges)))
+		r.AddTransitions(int64(fullEdges))
 		r.Depth(int(mainRes.Depth))
 		r.Add("tlc_states_generated", mainRes.Generated)
 		r.Add("traces", int64(len(paths)))
@@ -359,11 +412,36 @@ func TestCheck(t *testing.T) {
 				})
 			}
 		})
-		var n int64
+		var n, shardListings, shardSplit int64
 		for i := range replayed {
 			if replayed[i].Load() {
 				n++
+				// sharded sets: listings taken on the real gateways, and those taken while the bucket holds a complete
+				// replacement whose sources are (partly) owned by the other gateway - where the order of the shard filter
+				// and the duplicate filter decides
+				if e := g.Edges[i]; p.gateways() > 1 && e.Act == "SyncBegin" {
+					shardListings++
+					st := g.States[e.To]
+					split := false
+					for _, b := range modelBlocks(p.NJobs) {
+						if isSource(b) || st.Files[b] != "complete" {
+							continue
+						}
+						for _, src := range modelSrc(b) {
+							if p.owner(src) != p.owner(b) && st.Files[src] == "complete" {
+								split = true
+							}
+						}
+					}
+					if split {
+						shardSplit++
+					}
+				}
 			}
+		}
+		if p.gateways() > 1 {
+			r.Add("sharded_listings_replayed", shardListings)
+			r.Add("sharded_listings_replayed_with_replacement_on_other_gateway", shardSplit)
 		}
 		r.AddTraces(n)
 		r.Add("real_steps_executed", steps.Load())
